@@ -272,6 +272,9 @@ func vhC16Serve() {
 	prov := &vhProvider{rec: rec}
 	if verifNondetBool("subfails") {
 		prov.subErr = vhErrSubscribe
+		if verifChoose("suberr-kind", 2) == 1 {
+			prov.subErr = ErrProviderClosed // the provider was shut down before the request arrived
+		}
 	}
 	srv := &Server{Provider: prov}
 	var chosen []string
